@@ -1,7 +1,7 @@
 (* C10  Literal and constant values match the compiler on each platform.
    Statements only; every proof is `exact <lemma>`. *)
 From CV Require Import Base.Bytes Lit.Defs Lit.Spec Lit.Platform Lit.Gen_Platforms Lit.PlatformProofs
-  Lit.Proofs Lit.IntTheorems Lit.CharTheorems.
+  Lit.Proofs Lit.IntTheorems Lit.CharTheorems Lit.ValueTheorems.
 Local Open Scope N_scope.
 
 (* SPEC-EQ: every integer literal of the grammar (any base, any suffix, any number of digits) whose
@@ -60,6 +60,41 @@ Theorem C10_prefixed_char_literal_value pre sp v : c_char sp v -> v < 128 ->
 Proof. exact (prefixed_char_literal pre sp v). Qed.
 Print Assumptions C10_prefixed_char_literal_value.
 
+(* casts: truncateIntValue is the conversion to an integer type of `size` bytes *)
+Theorem C10_cast_value z size signed : 1 <= size -> size <= 8 ->
+  let bits := Z.of_N (8 * size) in
+  let r := truncate_int_value z size signed in
+  ((r - z) mod 2 ^ bits = 0)%Z /\
+  (signed = true -> - 2 ^ (bits - 1) <= r < 2 ^ (bits - 1))%Z /\
+  (signed = false -> (size < 8)%N -> (0 <= r < 2 ^ bits)%Z).
+Proof. exact (truncate_spec z size signed). Qed.
+Print Assumptions C10_cast_value.
+
+(* a one-character narrow literal has the value of the platform's plain char when that is signed
+   (C and C++ files) ... *)
+Theorem C10_char_token_value_signed_platform p cpp sp v : c_char sp v -> p_sign p = 115 ->
+  char_literal_to_ll (39 :: sp ++ [39]) = Some (sext_spec 8 v) /\
+  narrow_nbytes (39 :: sp ++ [39]) = Some 1 /\
+  char_token_value p cpp 1 (sext_spec 8 v) = char_value_on p v.
+Proof. exact (char_token_value_signed_platform p cpp sp v). Qed.
+Print Assumptions C10_char_token_value_signed_platform.
+
+(* ... and for ASCII bytes on every platform *)
+Theorem C10_char_token_value_ascii p cpp v : v < 128 ->
+  char_token_value p cpp 1 (sext_spec 8 v) = char_value_on p v.
+Proof. exact (char_token_value_ascii p cpp v). Qed.
+Print Assumptions C10_char_token_value_ascii.
+
+(* ... but a byte >= 128 on a platform of the regenerated table whose plain char is unsigned is
+   reported with the host's sign: '\xff' is -1 where its value is 255 (finding, replayed on the
+   binary by the check) *)
+Theorem C10_char_token_unsigned_platform_refuted :
+  exists p s z, In p Gen_platforms /\ p_sign p = 117 /\
+                char_literal_to_ll s = Some z /\ narrow_nbytes s = Some 1 /\
+                (forall cpp, char_token_value p cpp 1 z <> char_value_on p 255).
+Proof. exact c_char_token_unsigned_platform_refuted. Qed.
+Print Assumptions C10_char_token_unsigned_platform_refuted.
+
 (* every entry of the table regenerated from Platform::set and platforms/*.xml is well-formed
    (finite statement: the table is rewritten from the source on every run) *)
 Theorem C10_platform_table_sane : forallb platform_sane Gen_platforms = true.
@@ -114,5 +149,7 @@ Example C10_ex_char_value : char_literal_to_ll [39;97;92;110;39] = Some 24842%Z.
 Proof. vm_compute. reflexivity. Qed.
 Example C10_ex_char_ff : char_literal_to_ll [39;92;120;102;102;39] = Some (-1)%Z.  (* '\xff' *)
 Proof. vm_compute. reflexivity. Qed.
+Example C10_ex_cast : truncate_int_value 300 1 false = 44%Z /\ truncate_int_value 200 1 true = (-56)%Z.
+Proof. vm_compute. split; reflexivity. Qed.
 Example C10_ex_platform : exists p, In p Gen_platforms /\ platform_sane p = true.
 Proof. exists plat_unix64. split; [vm_compute; tauto | vm_compute; reflexivity]. Qed.
